@@ -77,12 +77,15 @@ def sites() -> list[dict]:
                 if isinstance(sub, ast.Subscript) and isinstance(sub.ctx, ast.Load) and isinstance(sub.value, ast.Name) \
                         and sub.value.id in dicts:
                     found.append((fn.name, "dict_subscript", _norm(ast.unparse(sub))))
+        # A site is keyed by (file, kind, normalised text, ordinal among identical texts in the file): moving an unchanged
+        # assert / raise into a helper function or reordering functions does not change the table; a new or textually changed
+        # site does.  The enclosing function is kept as information only.
         seen: dict = {}
         for func, kind, text in found:
-            k = (func, kind, text)
+            k = (kind, text)
             occ = seen.get(k, 0)
             seen[k] = occ + 1
-            key = f"{rel}|{func}|{kind}|{text}|{occ}"
+            key = f"{rel}|{kind}|{text}|{occ}"
             out.append({"id": int(hashlib.sha1(key.encode()).hexdigest()[:12], 16), "file": rel, "func": func,
                         "kind": kind, "text": text, "occ": occ})
     return out
@@ -97,7 +100,7 @@ def render(ss: list[dict]) -> str:
     return (
         "/-! GENERATED by harness/props/c02_translate.py from /repo's source on every run (T-src). Do not edit.\n"
         "    Every `assert`, `raise InternalGuppyError`, raise of a non-Guppy exception and `assert_never` in the anchored\n"
-        "    checker files: (id = hash of file|function|kind|normalised text|occurrence, file, function, kind, text). -/\n"
+        "    checker files: (id = hash of file|kind|normalised text|ordinal among identical texts in the file, file, function (information only), kind, text). -/\n"
         "namespace GuppyVerif.C02\n\n"
         "structure Site where\n  id : Nat\n  file : String\n  func : String\n  kind : String\n  text : String\n  deriving Repr\n\n"
         "namespace Gen\n\n"
@@ -120,20 +123,20 @@ if __name__ == "__main__" and not any(a.startswith("--") for a in __import__("sy
 # the current inventory from the hand-written rules below.  Spec/C02.lean is committed; when the inventory changes the
 # theorems of Props/C02.lean stop checking until a human classifies the new sites (re-run this and review the diff).
 GUARD_RULES = [
-    # (file suffix, function, kind, text substring) -> Guard constructor
-    (("cfg_checker.py", "check_rows_match", "dict_subscript", "map"), "useDefNoInternalError"),
-    (("cfg_checker.py", "check_cfg", "dict_subscript", "compiled[bb]"), "useDefNoInternalError"),
-    (("cfg_checker.py", "check_bb", "assert", "branch_pred is not None"), "twoSuccessorsHavePred"),
-    (("cfg_checker.py", "diagnose_maybe_undefined", "assert", "branch_pred is not None"), "twoSuccessorsHavePred"),
-    (("linearity_checker.py", "check_cfg_linearity", "assert", "branch_pred is not None"), "twoSuccessorsHavePred"),
-    (("expr_checker.py", "ExprSynthesizer.visit_Compare", "internal", "chained comparison"), "bldResidualNoLifts"),
-    (("expr_checker.py", "ExprSynthesizer.visit_NamedExpr", "internal", ""), "bldResidualNoLifts"),
-    (("expr_checker.py", "ExprSynthesizer.visit_BoolOp", "internal", ""), "bldResidualNoLifts"),
-    (("expr_checker.py", "ExprSynthesizer.visit_IfExp", "internal", ""), "bldResidualNoLifts"),
-    (("builder.py", "CFGBuilder.visit_Continue", "internal", ""), "loopBodyHasJumpTargets"),
-    (("builder.py", "CFGBuilder.visit_Break", "internal", ""), "loopBodyHasJumpTargets"),
-    (("expr_checker.py", "type_check_args", "zip_strict", "inputs, func_ty.inputs"), "arityChecked"),
-    (("expr_checker.py", "ExprSynthesizer.visit_Name", "internal", "is not defined"), "namesResolved"),
+    # (file suffix, kind, text substring) -> Guard constructor   (no function names: see the site key)
+    (("cfg_checker.py", "dict_subscript", "map1[x]"), "useDefNoInternalError"),
+    (("cfg_checker.py", "dict_subscript", "map2[x]"), "useDefNoInternalError"),
+    (("cfg_checker.py", "dict_subscript", "compiled[bb]"), "useDefNoInternalError"),
+    (("cfg_checker.py", "assert", "branch_pred is not None"), "twoSuccessorsHavePred"),
+    (("linearity_checker.py", "assert", "branch_pred is not None"), "twoSuccessorsHavePred"),
+    (("expr_checker.py", "internal", "chained comparison"), "bldResidualNoLifts"),
+    (("expr_checker.py", "internal", "BB contains `NamedExpr`"), "bldResidualNoLifts"),
+    (("expr_checker.py", "internal", "BB contains `BoolOp`"), "bldResidualNoLifts"),
+    (("expr_checker.py", "internal", "BB contains `IfExp`"), "bldResidualNoLifts"),
+    (("builder.py", "internal", "Continue BB not defined"), "loopBodyHasJumpTargets"),
+    (("builder.py", "internal", "Break BB not defined"), "loopBodyHasJumpTargets"),
+    (("expr_checker.py", "zip_strict", "inputs, func_ty.inputs"), "arityChecked"),
+    (("expr_checker.py", "internal", "is not defined in `TypeSynthesiser`"), "namesResolved"),
 ]
 WHY = {
     "assert": "assertion on an internal invariant; no model",
@@ -148,8 +151,8 @@ def spec_text(ss: list[dict]) -> str:
     rows = []
     for s in ss:
         g = None
-        for (fsuf, fn, kind, sub), guard in GUARD_RULES:
-            if s["file"].endswith(fsuf) and s["func"] == fn and s["kind"] == kind and sub in s["text"]:
+        for (fsuf, kind, sub), guard in GUARD_RULES:
+            if s["file"].endswith(fsuf) and s["kind"] == kind and sub in s["text"]:
                 g = guard
         cls = f".guarded .{g}" if g else f".unmodelled {_s(WHY.get(s['kind'], 'deliberate non-Guppy exception (API misuse / environment); no model'))}"
         rows.append(f"  ({s['id']}, {cls}),  -- {s['file']} {s['func']} [{s['kind']}] {s['text'][:70]}")
